@@ -2,6 +2,7 @@ package c18
 
 import (
 	"fmt"
+	"math"
 	"math/rand"
 	"os"
 	"path/filepath"
@@ -322,6 +323,8 @@ var crossValues = func() [][]crossValue {
 		cv("int-0or1", int64(0), int64(1)),
 		cv("int-small", int64(2), int64(-1), int64(7), int64(42), int64(255), int64(300), int64(-128), int64(65535), int64(99999), int64(999999)),
 		cv("int-7+digits", int64(1000000), int64(1234567), int64(12345678), int64(-1000000), int64(2147483648), int64(1)<<40, int64(1)<<53),
+		// -0 is an integer literal for YAML (the int 0) and the float -0 for the other two
+		cv("negative-zero", math.Copysign(0, -1)),
 		cv("float-integral", 0.0, 1.0, 2.0, -3.0, 100.0, 65536.0),
 		cv("float-integral-7+digits", 1e6, 1e7+1, 1e15, 1e20, 1e21, 1e22),
 		cv("float-fraction", 0.5, 1.5, -2.25, 1e-7, 0.1, 1234567.5),
@@ -345,6 +348,7 @@ func crossPhase(res *harness.R, r *rand.Rand, dir, stem string, verbose bool) {
 		shape  string // "", "in-list", "in-map"
 		target reflect.Type
 		t      reflect.Type // the single-field struct
+		sig    string       // signature class if not the pairing
 	}
 	var entries []entry
 	n := 4 + r.Intn(4)
@@ -386,11 +390,35 @@ func crossPhase(res *harness.R, r *rand.Rand, dir, stem string, verbose bool) {
 		e.t = reflect.StructOf([]reflect.StructField{{Name: "F", Type: ft, Tag: reflect.StructTag(`config:"` + key + `"`)}})
 		entries = append(entries, e)
 	}
+	// numbers meeting min= / max= validators whose parameter is written as a
+	// negative, fractional, hexadecimal ... number, on fields that fix the
+	// number type and on interface{} fields that take what the front-end brings
+	for i, c := 0, 1+r.Intn(2); i < c; i++ {
+		key := "v" + strconv.Itoa(i)
+		numeric := [][]crossValue{crossValues[0], crossValues[1], crossValues[4], crossValues[6]}
+		group := numeric[r.Intn(len(numeric))]
+		doc.D[key] = group[r.Intn(len(group))].node()
+		params := []struct{ text, class string }{{"-1", "negative"}, {"-2.5", "negative-fraction"}, {"0", "integer"}, {"3", "integer"}, {"10", "integer"},
+			{"1.5", "fraction"}, {"0x10", "hexadecimal"}, {"1e2", "exponent"}, {"010", "leading-zero"}, {"+4", "explicit-sign"}}
+		pm := params[r.Intn(len(params))]
+		op := []string{"min", "max"}[r.Intn(2)]
+		target := []reflect.Type{tIface, tIface, tIface, tInt64, tUint64, tFloat64, reflect.PtrTo(tInt64)}[r.Intn(7)]
+		tk := target
+		if tk.Kind() == reflect.Ptr {
+			tk = tk.Elem()
+		}
+		res.SetAdd("validator_parameter", op+"="+pm.class+" on "+tk.String())
+		e := entry{key: key, class: group[0].class + "-validated-" + op + "=" + pm.text, target: target,
+			sig: "validator-parameter-on-" + strings.ReplaceAll(tk.String(), " ", "") + "-field"}
+		e.t = reflect.StructOf([]reflect.StructField{{Name: "F", Type: target, Tag: reflect.StructTag(`config:"` + key + `" validate:"` + op + "=" + pm.text + `"`)}})
+		entries = append(entries, e)
+		res.Ev("validator_parameter_pairings", 1)
+	}
 	// with VarExp: settings that embed a scalar of the document in a string,
 	// or stand for it; every setting is referenced at most once
 	if cb.varExp {
 		for i, e := range append([]entry{}, entries...) {
-			if e.shape != "" || r.Intn(2) == 0 {
+			if e.shape != "" || e.sig != "" || r.Intn(2) == 0 {
 				continue
 			}
 			key := "s" + strconv.Itoa(i)
@@ -459,6 +487,11 @@ func crossPhase(res *harness.R, r *rand.Rand, dir, stem string, verbose bool) {
 					renderTyped(&b, pv.Elem().Field(0))
 					s = "ok " + b.String()
 				}
+				if e.shape == "" && e.sig == "" {
+					// the low-level getter of the same kind has to agree as well
+					s += " / getter " + getterOutcome(c, e.key, e.target, cb.opts)
+					res.Eval(1)
+				}
 				out[k][i] = append(out[k][i], s)
 				errs[k][i] = append(errs[k][i], uerr)
 			}
@@ -477,9 +510,12 @@ func crossPhase(res *harness.R, r *rand.Rand, dir, stem string, verbose bool) {
 		if tk.Kind() == reflect.Ptr {
 			tk = tk.Elem()
 		}
-		sigClass := strings.TrimPrefix(e.class, "reference-to-") + "-into-" + tk.String()
+		sigClass := strings.TrimPrefix(e.class, "reference-to-") + "-into-" + strings.ReplaceAll(tk.String(), " ", "")
 		if strings.HasPrefix(e.class, "splice-of-") {
 			sigClass = e.class // the text of the splice differs, whatever receives it
+		}
+		if e.sig != "" {
+			sigClass = e.sig
 		}
 		y, j, h := out[1][0][ei], out[1][1][ei], out[1][2][ei]
 		if strings.HasPrefix(y, "ok") {
@@ -490,7 +526,7 @@ func crossPhase(res *harness.R, r *rand.Rand, dir, stem string, verbose bool) {
 		detail := fmt.Sprintf("setting %q = %s into %v: yaml %s (%v) | json %s (%v) | hjson %s (%v)", e.key, doc.D[e.key], e.t.Field(0).Type, y, errs[1][0][ei], j, errs[1][1][ei], h, errs[1][2][ei])
 		if y != j || j != h {
 			what := "data"
-			if (y == "error") != (j == "error") || (j == "error") != (h == "error") {
+			if strings.HasPrefix(y, "error") != strings.HasPrefix(j, "error") || strings.HasPrefix(j, "error") != strings.HasPrefix(h, "error") {
 				what = "outcome"
 			}
 			res.Violate("frontends-disagree:cross-type:"+sigClass+":"+what, "%s; %s", detail, ctxBase)
@@ -501,4 +537,42 @@ func crossPhase(res *harness.R, r *rand.Rand, dir, stem string, verbose bool) {
 			}
 		}
 	}
+}
+
+// getterOutcome reads a scalar with the getter matching the target kind.
+func getterOutcome(c *ucfg.Config, key string, target reflect.Type, opts []ucfg.Option) (out string) {
+	defer func() {
+		if p := recover(); p != nil {
+			out = fmt.Sprintf("panic %v", p)
+		}
+	}()
+	if target.Kind() == reflect.Ptr {
+		target = target.Elem()
+	}
+	var v interface{}
+	var err error
+	switch target.Kind() {
+	case reflect.Bool:
+		v, err = c.Bool(key, -1, opts...)
+	case reflect.String:
+		v, err = c.String(key, -1, opts...)
+	case reflect.Int8, reflect.Int64:
+		v, err = c.Int(key, -1, opts...)
+	case reflect.Uint8, reflect.Uint64:
+		v, err = c.Uint(key, -1, opts...)
+	case reflect.Float32, reflect.Float64:
+		v, err = c.Float(key, -1, opts...)
+	default:
+		return "-"
+	}
+	if err != nil {
+		return "error"
+	}
+	if s, ok := v.(string); ok {
+		return strconv.Quote(s)
+	}
+	if b, ok := v.(bool); ok {
+		return strconv.FormatBool(b)
+	}
+	return model.NumCanon(v)
 }
